@@ -80,8 +80,8 @@ WorkThread::WorkThread(event::Loop *main_loop) :
     d_(new Data)
 {
     d_->default_main_loop = main_loop;
+    d_->stop_flag = false;  //! before the thread exists: the thread reads it
     d_->work_thread = std::thread(std::bind(&WorkThread::threadProc, this));
-    d_->stop_flag = false;
 }
 
 WorkThread::~WorkThread()
@@ -283,9 +283,10 @@ void WorkThread::cleanup()
             d_->task_pool.free(d_->undo_tasks_cabinet.free(token));
             d_->undo_tasks_token_deque.pop_front();
         }
+        //! set under the lock the work thread evaluates its wait predicate with, otherwise the notify can be missed
+        d_->stop_flag = true;
     }
 
-    d_->stop_flag = true;
     d_->cond_var.notify_all();
 
     d_->work_thread.join();
